@@ -24,14 +24,32 @@ def select(w, what):
     for k in keys:
         if k not in out and not w.contracts[k].get("abstract"):
             out.append(k)
+    for x in what:
+        for name, lem in getattr(w, "lemmas", {}).items():
+            if x == "all" or x in lem.get("properties", []) or x == name or x == "lemma::" + name:
+                if "lemma::" + name not in out:
+                    out.append("lemma::" + name)
     return out
+
+
+def lemma_result(w, name):
+    from . import lemmas
+    r = contracts.FnResult(f"lemma::{name}")
+    r.obligations = lemmas.obligations(w, name)
+    r.paths = len(r.obligations)
+    r.returns = len(r.obligations)
+    r.sha = "spec"
+    return r
 
 
 def run(w, keys, timeout_ms=solve.DEFAULT_TIMEOUT_MS, verbose=True):
     results = []
     for k in keys:
         t0 = time.time()
-        r = contracts.verify_function(w, k)
+        if k.startswith("lemma::"):
+            r = lemma_result(w, k[7:])
+        else:
+            r = contracts.verify_function(w, k)
         for m in w.contract_modules:
             h = getattr(m, "prepare", None)
             if h:
